@@ -67,7 +67,11 @@ impl PhysLayer {
             #[cfg(test)]
             Self::Mock(x) => {
                 let count = x.read(buffer).await?;
-                (count, PhysAddr::None)
+                #[cfg(dnp3_verif)]
+                let addr = crate::util::verif_trace::next_phys_addr(count);
+                #[cfg(not(dnp3_verif))]
+                let addr = PhysAddr::None;
+                (count, addr)
             }
         };
 
